@@ -83,7 +83,7 @@ func init() {
 }
 
 func cfgParams(expiry, refresh, bound, max, deferred, icap int) map[string]int {
-	return map[string]int{"expiry": expiry, "refresh": refresh, "bound": bound, "max": max, "deferred": deferred, "icap": icap, "canary": 0, "stats": 0}
+	return map[string]int{"expiry": expiry, "refresh": refresh, "bound": bound, "max": max, "deferred": deferred, "icap": icap, "canary": 0, "stats": 0, "forcesym": 0}
 }
 
 func with(m map[string]int, kv ...interface{}) map[string]int {
@@ -315,6 +315,38 @@ func init() {
 		}
 		j := mk("c10.canary", rootPkg, "ZZ_C10_Bulk", with(cfgParams(2, 0, 0, 0, 1, 0), "reqlen", 2, "canary", 1), func(b *Bounds) { b.Unwind = 12 })
 		j.Canary = "c10.canary"
+		return append(js, j)
+	}
+}
+
+func init() {
+	registry["C11"] = func(tier string) []*Job {
+		var js []*Job
+		type rc struct {
+			name     string
+			exp, ref int
+		}
+		cfgs := []rc{{"r_writing", 0, 2}, {"er_custom_writing", 2, 3}, {"er_accessing_creating", 3, 1}}
+		if tier == "thorough" {
+			cfgs = append(cfgs, rc{"r_creating", 0, 1}, rc{"r_custom", 0, 3}, rc{"er_creating_writing", 1, 2}, rc{"er_custom_custom", 4, 3})
+		}
+		for _, c := range cfgs {
+			for _, def := range []int{0, 1} {
+				if def == 0 && c.exp != 0 {
+					continue // sync executor + expiry: the sweep with a symbolic clock is C13's subject
+				}
+				j := mk(sprintf("c11.get.%s.def%d", c.name, def), rootPkg, "ZZ_C11_Get", cfgParams(c.exp, c.ref, 0, 0, def, 0), func(b *Bounds) { b.Unwind = 12 })
+				js = append(js, j)
+				j = mk(sprintf("c11.manual.%s.def%d", c.name, def), rootPkg, "ZZ_C11_Manual", cfgParams(c.exp, c.ref, 0, 0, def, 0), func(b *Bounds) { b.Unwind = 12 })
+				js = append(js, j)
+			}
+		}
+		if tier == "debug" {
+			js = append(js, mk("c11.debugsym", rootPkg, "ZZ_C11_Manual", with(cfgParams(2, 3, 0, 0, 1, 0), "forcesym", 1), func(b *Bounds) { b.Unwind = 12 }))
+		}
+		js = append(js, mk("c11.manual.norefresh", rootPkg, "ZZ_C11_Manual", cfgParams(2, 0, 0, 0, 1, 0), func(b *Bounds) { b.Unwind = 12 }))
+		j := mk("c11.canary", rootPkg, "ZZ_C11_Get", with(cfgParams(0, 2, 0, 0, 1, 0), "canary", 1), func(b *Bounds) { b.Unwind = 12 })
+		j.Canary = "c11.canary"
 		return append(js, j)
 	}
 }
